@@ -40,6 +40,9 @@ pub fn signed_shift<'a>(term: &Term<'a>, cutoff: usize, amount: isize) -> Option
                     None
                 }
             } else {
+                #[cfg(feature = "verif")]
+                crate::verif_hooks::bump(crate::verif_hooks::SHIFT_LOCAL_HOLE);
+
                 Some(term.clone())
             }
         }
